@@ -89,13 +89,23 @@ def circuits() -> dict[str, Any]:
             [('c', 2)], {0: ('c', 1), 1: ('c', 0)}), (0, 1))
         return c
 
+    def chain3_meas() -> Circuit:
+        c = Circuit(3)
+        c.append_gate(HGate(), 0)
+        c.append_gate(CNOTGate(), (0, 1))
+        c.append_gate(CNOTGate(), (1, 2))
+        c.append_gate(MeasurementPlaceholder(
+            [('c', 3)], {0: ('c', 1), 1: ('c', 2), 2: ('c', 0)}), (0, 1, 2))
+        return c
+
     def one() -> Circuit:
         c = Circuit(1)
         c.append_gate(HGate(), 0)
         c.append_gate(TGate(), 0)
         return c
     return {'ghz_far': ghz_far, 'tof_meas': tof_meas, 'ring4': ring4,
-            'blocked': blocked, 'two_meas': two_meas, 'one': one}
+            'blocked': blocked, 'two_meas': two_meas, 'one': one,
+            'chain3_meas': chain3_meas}
 
 
 def models() -> dict[str, Any]:
@@ -111,6 +121,12 @@ def models() -> dict[str, Any]:
         'line5': lambda: MachineModel(
             5, [(0, 1), (1, 2), (2, 3), (3, 4)]),
         'two': lambda: MachineModel(2, [(0, 1)]),
+        # the best-connected qudits are not the first ones: the placement
+        # is an order-preserving map that is not the identity
+        'tail_triangle5': lambda: MachineModel(
+            5, [(0, 1), (1, 2), (2, 3), (3, 4), (2, 4)]),
+        'line6_chord': lambda: MachineModel(
+            6, [(0, 1), (1, 2), (2, 3), (3, 4), (4, 5), (3, 5)]),
     }
 
 
@@ -121,6 +137,9 @@ def cases(tier: str) -> list[tuple[str, str, int, int]]:
         ('ring4', 'line5', 1, 0), ('blocked', 'ring5czu3', 1, 0),
         ('two_meas', 'star4', 1, 0), ('one', 'two', 1, 0),
         ('one', 'two', 4, 0),
+        ('chain3_meas', 'tail_triangle5', 1, 0),
+        ('chain3_meas', 'line6_chord', 1, 0),
+        ('two_meas', 'line6_chord', 2, 0),
         ('ghz_far', 'star4', 2, 0), ('blocked', 'line4cz', 2, 1),
     ]
     if tier == 'quick':
@@ -260,9 +279,9 @@ def run(repo: str, tier: str, seed: int, jobs: int) -> dict:
                         for p in parts[:3]],
             'wall_s': 0,
             'scope': '%d circuit x model x optimization-level x seed cases: '
-                     '6 circuits of 1-4 qubits (far CNOTs, Toffoli, a '
+                     '7 circuits of 1-4 qubits (far CNOTs, Toffoli, a '
                      'pre-blocked CircuitGate, barriers, partial and '
-                     'permuted measurements), 6 models (line, star, ring, '
+                     'permuted measurements), 8 models (line, star, ring, '
                      'machine wider than the circuit, CZ/RZ/SX and CZ/U3 '
                      'gate sets)' % len(parts),
             'exhaustive': False,
